@@ -96,8 +96,8 @@ type Run struct {
 	Replay string
 	// ReplayCases is non-nil when the command must run exactly these case lines (-replay / -replayfile).
 	ReplayCases []string
-	Rng    *Rng
-	Stats  Stats
+	Rng         *Rng
+	Stats       Stats
 
 	cases, impl *bufio.Writer
 	fc, fi      *os.File
